@@ -58,8 +58,25 @@ func execSeq(sc seqScenario) *evid.Failure {
 	s := newSubject(keys)
 	mstate := map[string]kstate{} // map target
 	cstate := map[string]kstate{} // cache target
+	// results that are maps of their own (CopyData, LoadAndDeleteAll) belong to the caller: they do not
+	// change when the map is operated on later, and writing to them does not change the map
+	type kept struct {
+		step int
+		kind string
+		m    map[string]int
+		snap string
+	}
+	var retained []kept
 	for i, op := range sc.Ops {
 		o := s.do(op)
+		if (op.Kind == "CopyData" || op.Kind == "LoadAndDeleteAll") && o.Panic == "" {
+			retained = append(retained, kept{i, op.Kind, o.Pairs, fmt.Sprint(o.Pairs)})
+		}
+		for _, k := range retained {
+			if k.step < i && fmt.Sprint(k.m) != k.snap {
+				return evid.Failf("seq/result-changed-later", sc, "the result of step %d (%s) was %s when it was returned and reads %v after step %d (%+v): it is still connected to the map", k.step, k.kind, k.snap, k.m, i, op)
+			}
+		}
 		if o.Panic != "" {
 			return evid.Failf("seq/panic", sc, "step %d %+v panicked: %s", i, op, o.Panic)
 		}
@@ -117,6 +134,12 @@ func execSeq(sc seqScenario) *evid.Failure {
 			if v, ok := s.m.Load(k); ok != mstate[k].Present || (ok && v != mstate[k].V) {
 				return fail("after the step the map holds (%v,%v) for %q, model %+v", v, ok, k, mstate[k])
 			}
+		}
+	}
+	for _, k := range retained {
+		k.m["zz"] = 99
+		if v, ok := s.m.Load("zz"); ok {
+			return evid.Failf("seq/result-aliases-the-map", sc, "writing to the result of step %d (%s) stored %d under a new key of the map itself", k.step, k.kind, v)
 		}
 	}
 	return nil
